@@ -28,6 +28,10 @@ var (
 	// Use errors.Is to check if returned error is ErrUnitDisabled.
 	ErrUnitDisabled = errors.New("unit disabled")
 
+	// ErrUnexpectedData is wrapped and returned by DefaultParser if JSON input contains other data after value.
+	// Use errors.Is to check if returned error is ErrUnexpectedData.
+	ErrUnexpectedData = errors.New("unexpected data after value")
+
 	// ErrExpectedObject is wrapped and returned by DefaultParser
 	// if RuleEnableJSONObjectForm is present and input contains invalid JSON kind.
 	// Use errors.Is to check if returned error is ErrExpectedObject.
